@@ -123,7 +123,8 @@ def g_train(draw):
     floor = gen.choice(draw, [1e-10, 1e-10, 1e-10, 1e-2 * float(scales.min()) ** 2, 3.0 * float(scales.max()) ** 2])
     return {"ubm": ubm, "items": items, "dim_t": gen.integer(draw, 1, 4), "K": gen.integer(draw, 2, 6),
             "update_sigma": gen.choice(draw, [True, True, False]), "np_seed": gen.integer(draw, 0, 99999),
-            "floor": float(floor), "dead": dead}
+            "floor": float(floor), "dead": dead, "bag": gen.choice(draw, [None, None, None, "seq", "mapped"]),
+            "npartitions": gen.integer(draw, 1, n_items)}
 
 
 def train(case, k, stats=None):
@@ -133,7 +134,19 @@ def train(case, k, stats=None):
     np.random.seed(case["np_seed"])
     m = IVectorMachine(ubm, dim_t=case["dim_t"], max_iterations=k, update_sigma=case["update_sigma"],
                        variance_floor=case["floor"])
-    m.fit([sut.make_stats(s) for s in case["items"]] if stats is None else stats)
+    data = [sut.make_stats(s) for s in case["items"]] if stats is None else stats
+    if case.get("bag"):
+        # the same statistics as a Dask bag: built from the list, or with lazily produced elements
+        import dask.bag as db
+
+        from vf.props.c12 import _Getter
+
+        npart = int(case.get("npartitions", 2))
+        if case["bag"] == "mapped":
+            data = db.from_sequence(list(range(len(data))), npartitions=npart).map(_Getter(data))
+        else:
+            data = db.from_sequence(data, npartitions=npart)
+    m.fit(data)
     return m
 
 
@@ -188,4 +201,5 @@ def c_train(ctx, case):
                 ctx.fail("marginal likelihood of the training statistics fell from %.12g to %.12g at iteration %d "
                          "(update_sigma=%s)" % (vals[k], vals[k + 1], k + 1, case["update_sigma"]), "likelihood-decrease")
     ctx.note(inc and len(prof) >= 2 and R >= 2, "update_sigma" if case["update_sigma"] else "fixed_sigma",
+             ("bag:" + case["bag"]) if case.get("bag") else "list",
              "floor-active" if floor_active else "floor-inactive", "zero-count-component" if case["dead"] is not None else None)
